@@ -481,6 +481,28 @@ inline KV genSparseLUCase()
                     Um[i][j] = U(-2, 2);
             }
         }
+        // "every matrix that admits LU without pivoting": the pivot u_ii need not come from a stored diagonal entry. In a
+        // quarter of the LU-product cases some rows get u_ii := -(sum_{k<i} l_ik u_ki), so that a_ii is exactly zero while
+        // the pivot is not; the zero is then either stored explicitly or left out of the pattern.
+        const bool zeroDiag = rint(0, 3) == 0;
+        std::vector<char> dropDiag(n, 0);
+        int nZeroDiag = 0;
+        if (zeroDiag)
+            for (int i = 1; i < n; i++) {
+                if (Z(0, 2) != 0)
+                    continue;
+                double sp = 0;
+                for (int k = 0; k < i; k++)
+                    if (L[i][k] != 0 && Um[k][i] != 0)
+                        sp += L[i][k] * Um[k][i];
+                if (std::fabs(sp) < 0.05 || std::fabs(sp) > 20)
+                    continue;
+                Um[i][i]    = -sp;
+                dropDiag[i] = Z(0, 1) ? 1 : 2; // 1: entry absent, 2: explicit zero
+                nZeroDiag++;
+            }
+        if (nZeroDiag)
+            cls += "_zerodiag";
         for (int i = 0; i < n; i++)
             for (int j = 0; j < n; j++) {
                 double s = 0;
@@ -492,6 +514,10 @@ inline KV genSparseLUCase()
                     }
                 A[i][j]    = s;
                 mask[i][j] = any || i == j;
+                if (i == j && dropDiag[i]) {
+                    A[i][j]    = 0.0; // exact by construction (the last term cancels the partial sum); forced all the same
+                    mask[i][j] = dropDiag[i] == 2;
+                }
             }
     }
     else {
